@@ -202,6 +202,75 @@ def scenario_requests(sess, rng, r, nep, plan, label):
     c('async_free 0')
 
 
+def scenario_readd(sess, rng, r, nep, second, label):
+    """a request completes with a valid response; the caller adds the SAME handle object once more; in the second round every endpoint behaves
+    as `second` says. The second round stands for itself: completed with the first valid response of the second round, or - when every endpoint
+    fails - with an error and WITHOUT the signature / response of the first round."""
+    c = sess.cmd
+    ha = HA(sess, rng, r, nep, 'sign', label)
+    h = R.H(1, b'ha-readd/' + label.encode())
+    q = c('async_add 0 0 sign %s 0 u1' % h.hex())
+    if q.rc != 0:
+        ha.viol('add-refused:rc=%#x' % q.rc, 'user request refused by an idle HA service')
+        c('async_free 0')
+        return
+
+    def round_(outcomes, rnd):
+        got = None
+        sigs = []
+        for step in range(10 + 2 * nep):
+            ha.tick(1 if step < 8 else 12)
+            q = c('async_run 0 keep=7')
+            ha.trace.append('run->%s' % ({k: q[k] for k in ('state', 'tag', 'herr', 'errsigrc') if k in q} if q.get('handle') == '1' else '-'))
+            if q.get('handle') == '1' and q.get('tag') == 'u1' and int(q['state']) in (ST_RESP, ST_ERR):
+                got = q
+                break
+            for i, host in enumerate(ha.hosts):
+                for info, rq in ha.requests_on(host):
+                    o = outcomes[i]
+                    if o == 'valid':
+                        sg = gen.gen_signature(random.Random('%s/%d/%d' % (label, rnd, i)), first_corr=0, with_cal=False, rfc=False, doc_imprint=h, time=1500000000 + rnd, nchains=1)
+                        sigs.append(sg.enc().hex())
+                        c('net_push %d %s' % (info['fd'], S.aggr_response(rq, sg, KEY).hex()))
+                    elif o == 'err_status':
+                        c('net_push %d %s' % (info['fd'], S.aggr_response(rq, None, KEY, status=0x101, errmsg='bad').hex()))
+                    elif o == 'err_pdu':
+                        c('net_push %d %s' % (info['fd'], S.error_pdu('aggr', 2, KEY, status=0x300).hex()))
+                    elif o == 'close':
+                        c('net_eof %d' % info['fd'])
+        return got, sigs
+    q1, sigs1 = round_(['valid'] * nep, 1)
+    if q1 is None or int(q1['state']) != ST_RESP or q1.get('sigrc') != '0':
+        ha.viol('readd:first-round-not-completed', 'first round with valid replies from every endpoint did not complete: %s' % (q1 and {k: q1[k] for k in ('state', 'herr', 'sigrc') if k in q1},))
+        c('async_free 0')
+        return
+    # drain what the other endpoints still have to say about round one
+    for _ in range(3):
+        ha.tick()
+        c('async_run 0')
+    a2 = c('async_readd 0 7')
+    if a2.rc != 0:
+        r.count('readd_refused')
+        c('ahnd_free 7')
+        c('async_free 0')
+        return
+    q2, sigs2 = round_(second, 2)
+    r.observe(('readd', nep, tuple(second), q2 and q2.get('state')))
+    r.count('ha_handles_added_a_second_time')
+    if q2 is None:
+        ha.viol('readd:second-round-never-returned', 'handle added a second time (endpoints: %s) was not handed back' % (second,))
+    elif 'valid' in second:
+        if not (int(q2['state']) == ST_RESP and q2.get('sigrc') == '0' and q2.get('sig') in sigs2):
+            ha.viol('readd:second-round-valid-reply-not-delivered', 'second round (endpoints %s): state=%s sigrc=%s; the signature handed out %s one issued in the second round' % (second, q2.get('state'), q2.get('sigrc'), 'is' if q2.get('sig') in sigs2 else 'is NOT'))
+    else:
+        if int(q2['state']) == ST_RESP or q2.get('errsigrc') == '0' or q2.get('errresp'):
+            ha.viol('readd:failed-second-round-offers-first-rounds-signature', 'every endpoint failed in the second round (%s) but the handle hands out a signature / response: state=%s errsigrc=%s errresp=%s' % (second, q2.get('state'), q2.get('errsigrc'), q2.get('errresp')))
+        else:
+            r.count('ha_failed_second_rounds_without_signature')
+    c('ahnd_free 7')
+    c('async_free 0')
+
+
 def scenario_cachefull(sess, rng, r, nep, silent, r2_outcomes, order, label):
     """per-endpoint 'cache full': endpoints in `silent` never answer request R1 and keep their single cache slot, the others
     answer it validly; request R2 is then refused by the silent endpoints and forwarded to the others only, which produce
@@ -381,6 +450,13 @@ def worker(job, r):
                     scenario_requests(sess, rng, r, nep, (outcomes, order), 'q%d' % k)
                     if k < 40:
                         r.sample(dict(endpoints=nep, outcomes=outcomes, arrival_order=[o + 1 for o in order]))
+        # the same handle object added a second time
+        for nep in (1, 2, 3):
+            for second in itertools.product(['valid', 'err_status', 'err_pdu', 'close', 'timeout'], repeat=nep):
+                k += 1
+                if k % nshards != shard:
+                    continue
+                scenario_readd(sess, rng, r, nep, list(second), 'ra%d' % k)
         # one endpoint (or two) holds its only cache slot: the next request reaches the others only
         for nep in (2, 3):
             for nsil in range(1, nep):
